@@ -17,8 +17,8 @@ CONSTANTS MaxLen,     \* beacons up to MaxLen AS entries, full cross product wit
           LocalInLoopCheck,  \* TRUE: the design (local AS part of the loop test); FALSE: the code before the fix
           Gen
 
-VARIABLES cfg, stored, sent, pc, last
-vars == <<cfg, stored, sent, pc, last>>
+VARIABLES cfg, stored, sent, regd, pc, last
+vars == <<cfg, stored, sent, regd, pc, last>>
 
 F(u, max, asB, isdB, loop) == [u |-> u, max |-> max, asBlack |-> asB, isdBlack |-> isdB, isdLoop |-> loop]
 I(id, nbr, lt) == [id |-> id, nbr |-> nbr, lt |-> lt]
@@ -63,7 +63,7 @@ B(h, n, bad) == [hops |-> h, next |-> n, bad |-> bad]
 CaseJson(b, inIf) == [cfg |-> cfg, hops |-> b.hops, next |-> b.next,
                       bad |-> IF b.bad = {} THEN <<>> ELSE <<CHOOSE x \in b.bad : TRUE>>, inIf |-> inIf]
 
-Init == /\ cfg \in 1..NCfg /\ stored = {} /\ sent = {} /\ pc = "handle"
+Init == /\ cfg \in 1..NCfg /\ stored = {} /\ sent = {} /\ regd = {} /\ pc = "handle"
         /\ last = [res |-> "none"]
         /\ (Gen /\ cfg = 1) => PrintT(<<"CFGS", ToJson(SubSeq(Cfgs, 1, NCfg))>>)
 
@@ -75,7 +75,7 @@ Handle(b, inIf) ==
        /\ last' = [res |-> res, b |-> b, inIf |-> inIf]
     /\ pc' = "prop"
     /\ Gen => PrintT(<<"SCN", ToJson(CaseJson(b, inIf))>>)
-    /\ UNCHANGED <<cfg, sent>>
+    /\ UNCHANGED <<cfg, sent, regd>>
 
 HandleFull == \E h \in HopSeqs(1, MaxLen), n \in {Local, 12}, inIf \in InIfs :
                  \E bad \in {{}, {1}, {Len(h)}} : Handle(B(h, n, bad), inIf)
@@ -86,10 +86,22 @@ Propagate ==
     /\ sent' = UNION {{[b |-> e.b, eg |-> x.id] : x \in {y \in PropIfs : IF LocalInLoopCheck THEN MayPropagate(e.b.hops, C.local, y.nbr, C.pIsdLoop)
                                                               ELSE MayPropagateNoLocal(e.b.hops, y.nbr, C.pIsdLoop)}}
                        : e \in {s \in stored : 8 \in s.usage}}
-    /\ pc' = "done"
-    /\ UNCHANGED <<cfg, stored, last>>
+    /\ pc' = "reg"
+    /\ UNCHANGED <<cfg, stored, regd, last>>
 
-Next == HandleFull \/ HandleExtra \/ Propagate
+\* WriteScheduler.Run for every segment type (1 up, 2 down, 3 core): Store.SegmentsToRegister hands out
+\* the beacons stored with the usage of that type (bit 1, 2, 4); a store that does not serve the type
+\* (core store: up/down, non-core store: core) registers nothing
+UsageOf(t) == CASE t = 1 -> 1 [] t = 2 -> 2 [] t = 3 -> 4
+Register ==
+    /\ pc = "reg"
+    /\ regd' = {[b |-> e.b, t |-> t] : e \in stored, t \in {x \in {1, 2, 3} : UsageOf(x) \in DOMAIN Pols}}
+                 \cap {r \in [b : {e.b : e \in stored}, t : {1, 2, 3}] :
+                         \E e \in stored : e.b = r.b /\ UsageOf(r.t) \in e.usage}
+    /\ pc' = "done"
+    /\ UNCHANGED <<cfg, stored, sent, last>>
+
+Next == HandleFull \/ HandleExtra \/ Propagate \/ Register
 Spec == Init /\ [][Next]_vars
 
 -----------------------------------------------------------------------------
@@ -124,6 +136,16 @@ SentNoLoop ==
             path == Append(Append(s.b.hops, C.local), x.nbr) IN
         /\ NoRepeat(path)
         /\ C.pIsdLoop \/ NoIsdReentry(path)
+
+\* every beacon registered as a segment of some type conforms to the registration policy of that type
+RegisteredConform ==
+    \A r \in regd :
+        LET u == UsageOf(r.t) IN
+        /\ u \in DOMAIN Pols
+        /\ Len(r.b.hops) <= Pols[u].max
+        /\ \A i \in 1..Len(r.b.hops) : As(r.b.hops[i]) \notin Pols[u].asBlack /\ Isd(r.b.hops[i]) \notin Pols[u].isdBlack
+        /\ NoRepeat(r.b.hops)
+        /\ Pols[u].isdLoop \/ NoIsdReentry(r.b.hops)
 
 \* the pipeline stores exactly when every only-if clause holds (the code is not stricter either)
 PipelineExact ==
